@@ -24,12 +24,14 @@ func (gc GeometryCollection) Len() int {
 
 // Points returns an iterator for the points in the receiver.
 func (gc GeometryCollection) Points() func() Point {
-	var i, j int
-	p := gc[0].Points()
+	var i, n int
+	j := -1
+	var p func() Point
 	return func() Point {
-		if i == gc[j].Len() {
+		for i == n { // move to the next non-empty member
 			j++
 			i = 0
+			n = gc[j].Len()
 			p = gc[j].Points()
 		}
 		i++
